@@ -274,6 +274,13 @@ def run_case(case, ctx):
                               crossings=[int(x) for x in rng.integers(0, 4, 3)], poses=[planted.POSES[int(x)] for x in rng.integers(0, len(planted.POSES), 3)],
                               decoys=["mirror"] if rng.integers(2) else [], n_bystanders=int(rng.integers(0, 6)), n_distractors=int(rng.integers(0, 3)))
         S, P = built["atoms"], patterns.to_atoms(pat)
+        if case["s"] % 7 == 3 and len(pat["elements"]) >= 2:
+            # a pattern that asks for an element the structure does not contain (a fluorinated linker searched in the plain
+            # framework): nothing matches, however the crystal is represented
+            pe = list(pat["elements"])
+            pe[-1] = "At"
+            P = patterns.to_atoms(dict(pat, elements=pe))
+            st.count("searches_for_a_pattern_with_an_element_the_structure_lacks")
         w = {"kind": "synthetic", "cell_class": case["cell"], "cell": np.round(built["cell"], 5).tolist(), "pattern_class": pat["cls"], "atol": atol,
              "pattern_elements": pat["elements"], "pattern_positions": np.round(pat["positions"], 5).tolist(), "planted": built["planted"], "n_atoms": len(S)}
         from vmon.contracts import c01_domain
@@ -412,6 +419,8 @@ def requirements(stats, tier):
         need.append("fewer than 4 real structure/pattern pairs with clear matches: %s" % sorted(stats.sets.get("real_pair_with_clear_matches", [])))
     if stats.get("base_clear_groups") < (300 if tier == "quick" else 20000):
         need.append("too few clear base matches: %d" % stats.get("base_clear_groups"))
+    if stats.get("searches_for_a_pattern_with_an_element_the_structure_lacks") < (10 if tier == "quick" else 1000):
+        need.append("patterns with an element the structure lacks: %d" % stats.get("searches_for_a_pattern_with_an_element_the_structure_lacks"))
     if stats.get("big_supercell_searches") < (2 if tier == "quick" else 40):
         need.append("searches of supercells of thousands of atoms: %d" % stats.get("big_supercell_searches"))
     if stats.get("near_degenerate_hint_searches") < (150 if tier == "quick" else 12000):
